@@ -286,7 +286,11 @@ func areUnknownAttributesAdded(content []byte) []string {
 	// Ignoring error because we already successfully unmarshalled before this
 	// point
 	_ = json.Unmarshal(content, &targetArtifactMap)
-	descriptor := targetArtifactMap["targetArtifact"].(map[string]interface{})
+	// the payload may spell the member differently (for example
+	// "TargetArtifact", which json.Unmarshal into envelope.Payload accepts)
+	// or carry a non-object value; such members remain in the map and are
+	// reported as unknown attributes
+	descriptor, _ := targetArtifactMap["targetArtifact"].(map[string]interface{})
 
 	// Explicitly remove expected keys to check if any are left over
 	delete(descriptor, "mediaType")
